@@ -5,6 +5,11 @@ HERE = os.path.dirname(os.path.dirname(os.path.abspath(__file__)))
 
 # id -> (category, technique, level text, level note, design ref)
 CHECKS = {
+ "C14": ("exploration",
+   "stateful property-based testing (proptest): generated vault histories (grants with levels and TTLs, revocations, delegations, group membership edges, secret operations by several identities) against an access model written from the documentation with upper/lower bound tables; marker-based scan of store, snapshots, audit log and error texts for plaintext",
+   "Histories of up to 40 operations by root and 3-5 identities over 3-4 secrets (set/get/list/rotate/delete, grant_with_permission, grant_with_ttl, revoke, delegate, revoke_delegation, MEMBER edges added and removed on vault.graph(), edges of non-listed types, permission probes) run on a real Vault with minimal key-derivation cost. Every allow/deny decision is compared with an independent access model (BFS over membership hops with attenuation, delegation ceilings, root = Admin) kept as an upper and a lower bound table for the places where the documentation leaves a choice; where both agree the decision is definite. Denied operations must change nothing. A second part adds 150 ms TTL grants and sleeps 190 ms before asserting denial. After each case every stored tensor, snapshot_bytes(), a saved snapshot file, all audit entries and all error texts are scanned for 8-byte markers of secret values and names in raw, hex, base64 and decimal form.",
+   "Expiry is asserted only after sleeping past the TTL. A child has at most one delegating parent (the product's walk over a randomly hashed map would be nondeterministic otherwise). The namespace part of a name is documented as stored in clear and is not treated as secret. Known findings: expired grants honoured until the next read, delegated grant surviving revoke_delegation, MEMBER-prefixed edge types traversed, secret names in clear at three store sites.",
+   "DESIGN.md section 1 C14"),
  "C18": ("exploration",
    "property-based testing (proptest) with independent reference algorithms over a model edge list: generated multigraphs and queries, validity predicates for returned paths (real walk, allowed direction, filter, optimal length/weight) and set/partition comparisons for enumerations and graph algorithms; child-process probe for non-terminating enumeration",
    "Generated multigraphs (1-24 nodes, directed and undirected, self-loops, parallel and antiparallel edges, two edge types, weight palettes incl. zero/equal/large/Int/Float/missing, filters; optional deletes and weight updates first) are queried through find_path, find_weighted_path, find_all_paths, find_all_weighted_paths, find_variable_paths, traverse, neighbors, astar_path and variable-length match_pattern, plus an all-pairs sweep on small graphs. Every returned path must be a walk over existing edges in an allowed direction that passes the filter and whose hop count / total weight equals the reference optimum (BFS; Dijkstra cross-checked with Bellman-Ford); not-found iff unreachable; enumerations are compared as sets with bounded reference enumerations. A second family checks components, SCC, MST, k-core, triangles, articulation points, bridges and biconnected blocks against brute-force references.",
